@@ -3863,12 +3863,13 @@ prefix_suffix_match(const char *pattern, const char *name, int ignorecase)
 			return *name == '\0';
 
 		case '*':
-			while (*name != '\0') {
+			/* '*' matches any run of characters, including the
+			 * whole rest of the name and the empty string */
+			do {
 				if (prefix_suffix_match(pattern, name,
 					ignorecase))
 					return (1);
-				++name;
-			}
+			} while (*name++ != '\0');
 			return (0);
 		default:
 			if (c != *name) {
